@@ -809,9 +809,9 @@ func genC18(tier string, rng *Rng) {
 		}
 	}
 	// (3) random structured states on cheap geometries
-	nr := 2500
+	nr := 2000
 	if thorough {
-		nr = 40000
+		nr = 30000
 	}
 	for i := 0; i < nr; i++ {
 		g := cheapGeo(rng)
@@ -836,9 +836,9 @@ func genC18(tier string, rng *Rng) {
 		runTile(s, W, H, rng.Intn(4), 1+rng.Intn(3))
 	}
 	// (4) strength-bar families: one state, many values
-	nbar := 250
+	nbar := 150
 	if thorough {
-		nbar = 3000
+		nbar = 1500
 	}
 	for i := 0; i < nbar; i++ {
 		s := randState(rng)
@@ -854,6 +854,59 @@ func genC18(tier string, rng *Rng) {
 		W := []int{8, 31, 32, 48, 52, 64, 112}[rng.Intn(7)]
 		H := []int{16, 24, 31, 32, 48}[rng.Intn(5)]
 		barFamily(rng, s, geo{W, H, rng.Intn(4), rng.Intn(4)})
+	}
+	// (5) malformed stream: every numeric field anywhere in its Go type's range (padding bounded:
+	// a huge TitleBarPadding is a 2^31-row fill, i.e. a hang by construction, outside the documented 0-3),
+	// strings of random bytes
+	nm := 400
+	if thorough {
+		nm = 5000
+	}
+	anyI32 := func() int32 {
+		switch rng.Intn(4) {
+		case 0:
+			return int32(rng.U64())
+		case 1:
+			return pickI32(rng, []int32{-2147483648, 2147483647, -1, 0, 1, 255, 256, 65535, 65536})
+		default:
+			return int32(rng.Range(-20, 20))
+		}
+	}
+	anyU32 := func() uint32 {
+		switch rng.Intn(4) {
+		case 0:
+			return uint32(rng.U64())
+		case 1:
+			return []uint32{0, 1, 3, 4, 7, 8, 255, 256, 65535, 2147483647, 2147483648, 4294967295}[rng.Intn(12)]
+		default:
+			return uint32(rng.Intn(20))
+		}
+	}
+	anyStr := func() string { return string(rng.Bytes(rng.Intn(21))) }
+	anyCol := func() *tcol {
+		if rng.Intn(5) == 0 {
+			return nil
+		}
+		return &tcol{kind: rng.Intn(4), r: anyU32(), g: anyU32(), b: anyU32(), idx: anyI32()}
+	}
+	for i := 0; i < nm; i++ {
+		s := tst{iv: anyI32(), iv2: anyI32(), fmt: anyI32(), si: anyI32(), mi: anyI32(), pm: anyI32(),
+			ti: anyStr(), l1: anyStr(), l2: anyStr(), solid: rng.Bool(), pix: anyCol(), bg: anyCol()}
+		if rng.Intn(4) != 0 {
+			s.scale = &[5]int32{anyI32(), anyI32(), anyI32(), anyI32(), anyI32()}
+		}
+		if rng.Intn(4) != 0 {
+			s.style = &tstyle{fixed: rng.Bool(), pad: uint32(rng.Intn(41)), spacing: anyU32(), ufs: anyU32()}
+			if rng.Intn(4) != 0 {
+				s.tfont = &tfont{anyI32(), anyU32(), anyU32()}
+			}
+			if rng.Intn(4) != 0 {
+				s.xfont = &tfont{anyI32(), anyU32(), anyU32()}
+			}
+		}
+		g := cheapGeo(rng)
+		stat("stream", "malformed")
+		runTile(s, g.W, g.H, g.shrink, g.border)
 	}
 	for g, m := range c18stats {
 		mm := map[string]interface{}{}
